@@ -181,8 +181,9 @@ macro_rules! forms {
                         report($st, "mul_add", i, &ma, &want, vec![pa, pb, pc]);
                     }
                 }
-                let items = [a.clone(), b.clone(), c.clone()];
-                for n in 0..=3usize {
+                // up to 19 items (a, b, c repeated): summation schemes that treat long inputs differently
+                let items: Vec<D> = (0..19).map(|k| [a.clone(), b.clone(), c.clone()][k % 3].clone()).collect();
+                for n in [0usize, 1, 2, 3, 4, 5, 8, 9, 11, 16, 17, 19] {
                     let mut s = D::zero();
                     let mut p = D::one();
                     for x in &items[..n] {
@@ -372,7 +373,7 @@ fn main() {
         mode: cli.mode,
         seed: cli.seed,
         start,
-        rule: "for every concrete type (scalar types over both widths, static and dynamic vector types incl. length 0, nested types): the 16 owned/borrowed forms of + - * /, 2 of neg, 4 dual and 8 scalar compound/plain operators, Inv, Sum/Product over owned and borrowed iterators of length 0..3, default mul_add, From<F>, the 14 FromPrimitive constructors, Zero, One (also set_zero / set_one), 19 FloatConst constants - each against the canonical form `&a op &b` with scalars lifted by from, on dyadic operands x every presence pattern x 5 real parts (among them exactly 0 and exactly 1). Non-trivial = a form applied to operands with non-zero parts.".into(),
+        rule: "for every concrete type (scalar types over both widths, static and dynamic vector types incl. length 0, nested types): the 16 owned/borrowed forms of + - * /, 2 of neg, 4 dual and 8 scalar compound/plain operators, Inv, Sum/Product over owned and borrowed iterators of length 0..19, default mul_add, From<F>, the 14 FromPrimitive constructors, Zero, One (also set_zero / set_one), 19 FloatConst constants - each against the canonical form `&a op &b` with scalars lifted by from, on dyadic operands x every presence pattern x 5 real parts (among them exactly 0 and exactly 1). Non-trivial = a form applied to operands with non-zero parts.".into(),
         assumptions: vec!["additive, forwarding and multiplicative-scalar forms: numerically equal in every part; scalar division and inv vs 1/a: within 16 u".into()],
         extra: json!({}),
         exhaustive: true,
